@@ -326,6 +326,7 @@ class HttpHarness:
         servers = [w.new_client() for _ in range(self.nclients)]
         srvm = w.server
         chain, snaps, log = [], [], []
+        calls, results, minted = [], [], {}
 
         def fresh_parent():
             p = c.fresh_int('parent', 0, 2 ** 128 - 1)
@@ -333,8 +334,28 @@ class HttpHarness:
                 c.assume(p != 7000 + k)
             return p
 
+        def scenario(m):
+            def ref(p):
+                v = show(p, m)
+                return {'ref': minted[v]} if v in minted else {'lit': str(v)}
+            cs = []
+            for d in calls:
+                e = {'h': d['h'], 'call': d['call']}
+                if 'parent' in d:
+                    e['parent'] = ref(d['parent'])
+                if 'version' in d:
+                    e['version'] = ref(d['version'])
+                if 'payload' in d:
+                    e['payload'] = [show(b, m) for b in d['payload'].items]
+                if d.get('urgency'):
+                    e['urgency'] = d['urgency']
+                cs.append(e)
+            return {'kind': 'srvcalls', 'backend': 'http', 'handles': self.nclients, 'client_id': str(w.client_id), 'secret': list(w.secret),
+                    'calls': cs, 'walk_from': ref(chain[0][0]) if chain else {'lit': '0'}}
+
         def wit(m):
-            return {'backend': 'http', 'calls': show(log, m), 'requests': [(q[0], q[1], show(q[2], m)) for q in srvm.requests]}
+            return {'backend': 'http', 'calls': show(log, m), 'requests': [(q[0], q[1], show(q[2], m)) for q in srvm.requests],
+                    'scenario': scenario(m), 'predicted': {'results': predicted_results(results, m, True), 'walk': None}}
 
         def conformant():
             if srvm.problems:
@@ -343,7 +364,8 @@ class HttpHarness:
                 return False
             return True
         for step in range(self.ncalls):
-            srv = servers[c.choose(self.nclients, 'client') if step else 0]
+            h = c.choose(self.nclients, 'client') if step else 0
+            srv = servers[h]
             kind = ['add_version', 'get_child_version', 'add_snapshot', 'get_snapshot'][c.choose(4, 'call')]
             latest = chain[-1][1] if chain else 0
             if kind == 'add_version':
@@ -352,6 +374,10 @@ class HttpHarness:
                 urg = c.choose(3, 'urgency')
                 srvm.urgency = [None, 'urgency=low', 'urgency=high'][urg]
                 r = w.run(w.f_add_version(srv, parent, clone_val(payload)))
+                calls.append({'h': h, 'call': kind, 'parent': parent, 'payload': payload, 'urgency': srvm.urgency})
+                results.append((kind, r))
+                if r.variant == 0 and r.fields[0].fields[0].variant == 0 and isinstance(r.fields[0].fields[0].fields[0], int):
+                    minted[r.fields[0].fields[0].fields[0]] = len(calls) - 1
                 srvm.urgency = None
                 log.append(('add_version', parent, payload))
                 if not conformant():
@@ -383,6 +409,8 @@ class HttpHarness:
             elif kind == 'get_child_version':
                 parent = fresh_parent()
                 r = w.run(w.f_get_child_version(srv, parent))
+                calls.append({'h': h, 'call': kind, 'parent': parent})
+                results.append((kind, r))
                 log.append(('get_child_version', parent))
                 if not conformant():
                     return None
@@ -414,6 +442,8 @@ class HttpHarness:
                 i = c.choose(len(chain), 'snapshot-version')
                 payload = PyVec([c.fresh_int('s', 0, 255) for _ in range((step + 1) % 3)])
                 r = w.run(w.f_add_snapshot(srv, chain[i][1], clone_val(payload)))
+                calls.append({'h': h, 'call': kind, 'version': chain[i][1], 'payload': payload})
+                results.append((kind, r))
                 log.append(('add_snapshot', i, payload))
                 if not conformant():
                     return None
@@ -423,6 +453,8 @@ class HttpHarness:
                 snaps = [(chain[i][1], payload)]
             else:
                 r = w.run(w.f_get_snapshot(srv))
+                calls.append({'h': h, 'call': kind})
+                results.append((kind, r))
                 log.append(('get_snapshot',))
                 if not conformant():
                     return None
@@ -447,6 +479,7 @@ class HttpHarness:
         # the whole chain read back through a fresh client
         srv = w.new_client()
         parent = chain[0][0] if chain else 0
+        walk = []
         for p, v, pl in chain:
             r = w.run(w.f_get_child_version(srv, parent))
             g = r.fields[0] if r.variant == 0 else None
@@ -456,16 +489,23 @@ class HttpHarness:
             ok = z_all([val_eq(g.fields[0], v), val_eq(g.fields[2], pl)])
             if not c.prove(ok, 'chain read back differs from the accepted versions', wit, {'class': 'walk-differs', 'backend': 'http'}):
                 return None
+            walk.append(g)
             parent = v
         out = {'backend': 'http', 'calls': [x[0] for x in log], 'chain': len(chain)}
         if c.want_sample:
+            m = c.get_model()
+            if m is not None:
+                out['scenario'] = scenario(m)
+                out['predicted'] = {'results': predicted_results(results, m, True),
+                                    'walk': [{'id': hex32(show(g.fields[0], m)), 'parent': hex32(show(g.fields[1], m)),
+                                              'bytes': [show(b, m) for b in g.fields[2].items]} for g in walk]}
             out['_encoded'] = sorted(I.encoded)
             out['_modelled'] = sorted(I.modelled)
         return out
 
 def replay_scenario(v):
     if v['witness'].get('backend') == 'http':
-        return {'kind': 'noop'}
+        return v['witness']['scenario']
     if v['witness'].get('backend') == 'local':
         return v['witness']['scenario']
     return _cw.replay_scenario(v)
@@ -473,7 +513,16 @@ def replay_scenario(v):
 
 def replay_judge(scn, out, v):
     if v['witness'].get('backend') == 'http':
-        return True, {'note': 'judged by the engine: the replay binary has no HTTP server'}
+        # confirmed when the compiled SyncServer (real reqwest, real sealing) talking to the in-process sync server of the replay
+        # binary returns what the interpreter predicted for the calls made so far, or when that server saw a malformed request
+        pred = v['witness']['predicted']
+        n = len(pred['results'])
+        if not isinstance(out, dict) or 'results' not in out:
+            return False, {'replay_output': str(out)[:300]}
+        if (v.get('info') or {}).get('class') == 'request-format':
+            return bool(out.get('request_problems')), {'request_problems': out.get('request_problems')}
+        eq, d = compare_calls({'results': pred['results'], 'walk': []}, {'results': out['results'][:n], 'walk': []})
+        return eq, d
     if v['witness'].get('backend') == 'local':
         # confirmed when the compiled LocalServer over the real SQLite returns what the interpreter predicted for the
         # calls made so far (the oracle was evaluated on those values); the final walk is not part of a counterexample
@@ -487,6 +536,10 @@ def replay_judge(scn, out, v):
 
 
 def validate_samples(s, out):
+    if s.get('backend') == 'http':
+        if isinstance(out, dict) and (out.get('request_problems') or out.get('plaintext_in_a_request_body')):
+            return False, {'request_problems': out.get('request_problems'), 'plaintext': out.get('plaintext_in_a_request_body')}
+        return compare_calls(s['predicted'], out)
     if s.get('backend') == 'local':
         return compare_calls(s['predicted'], out)
     return _cw.validate_samples(s, out)
@@ -514,7 +567,7 @@ def configs(tier):
 
 ASSUMPTIONS = [
     'claimed for the object-store backend, the local on-disk backend and the HTTP client; the git backend (sub-processes) is outside',
-    'HTTP client: the crate-side request construction and response interpretation are executed; reqwest/url are modelled at their call boundary (a request is a record of method, url, headers, body; a response is status, headers, body; header names case-insensitive; 4xx/5xx become errors in error_for_status); the server is a conformant implementation of docs/src/http.md written in the harness; transfer encodings, TLS, redirects and transport failures are outside; HTTP counterexamples are judged by the engine (no in-process HTTP server in the replay binary), they are reported with the request log',
+    'HTTP client: the crate-side request construction and response interpretation are executed; reqwest/url are modelled at their call boundary (a request is a record of method, url, headers, body; a response is status, headers, body; header names case-insensitive; 4xx/5xx become errors in error_for_status); the server is a conformant implementation of docs/src/http.md written in the harness; transfer encodings, TLS, redirects and transport failures are outside; the replay runs the same calls through ServerConfig::Remote (real reqwest, real sealing) against an in-process sync server written from docs/src/http.md in the replay binary (httptest) and compares every result',
     'local backend: the Rust code of LocalServer and StoredUuid is executed; the SQL engine behind rusqlite is a model (tables in insertion order, PRIMARY KEY uniqueness, transactions as private copies committed atomically; only the statement forms the crate uses are understood, anything else is inconclusive); the replay runs the same calls on the compiled LocalServer over the real SQLite (ServerConfig::Local) and compares every result',
     'local backend: add_snapshot is never called (the local server never asks for a snapshot; its add_snapshot is unreachable!() by design), get_snapshot must answer "none"; handles are used one after the other (no concurrent transactions: SQLite locking is outside)',
     'object store = model of the Service trait contract (get/put/del/list by prefix/compare-and-swap); ring primitives idealised (see C13); Uuid::new_v4 returns fresh distinct values with symbolic order',
